@@ -130,6 +130,7 @@ def check_item(item):
 
 def programs(tier, seed):
     base = progs.corpus() + progs.features() + [dict(label=p["label"], src=p["src"], argv=[]) for p in strprogs.programs()]
+    base += [dict(label=l, src=s_, argv=list(a)) for l, a, s_ in progs.CODEGEN_REJECTED]     # if one of these is ever accepted, what is emitted must still compile
     base += [dict(label="Y#%d" % i, src=s, argv=a) for i, (s, a) in enumerate(c02.yield_programs())]
     base += [dict(label="HW#%d" % j, src=U.source(tuple(p)), argv=U.needs_flags(tuple(p))) for j, p in enumerate(U.handwritten())]
     from checks import c17
